@@ -183,7 +183,7 @@ template <class T> static bool exec_buf_t(Ctx &c, const Op &op) {
     case B_READ: {
         BufObj<T> *o = pick(v, op.a);
         if (!o) { c.skipped = true; return true; }
-        char e[32]; std::snprintf(e, sizeof e, "obj=%c,%u", cl(o), op.b % 6); note_sig<T>(c, op, e);
+        char e[32]; std::snprintf(e, sizeof e, "obj=%c,%u", cl(o), op.b % 7); note_sig<T>(c, op, e);
         c.budget_bytes = o->model.size() * sizeof(T);
         if (o->moved_from) c.touched_moved_from = true;
         as_const(o);
@@ -191,7 +191,17 @@ template <class T> static bool exec_buf_t(Ctx &c, const Op &op) {
         const Str &m = o->model;
         bool ok = true; std::string why;
         ExcKind ex = run_sut(c, op, [&] {
-            switch (op.b % 6) {
+            switch (op.b % 7) {
+            case 6: {   // the non-const accessors read the same elements (an owner looking at its own buffer)
+                Buf &nb = *o->p();
+                for (size_t i = 0; i < m.size(); i++) if (nb.at(i) != m[i] || nb[i] != m[i]) { ok = false; why = "non-const at()/operator[]"; }
+                if (nb.front() != (m.empty() ? T(0) : m.front()) || nb.back() != (m.empty() ? T(0) : m.back())) { ok = false; why = "non-const front()/back()"; }
+                Str f(nb.begin(), nb.end()), r(nb.rbegin(), nb.rend()); Str mr(m.rbegin(), m.rend());
+                if (f != m || r != mr || nb.data() != b.data()) { ok = false; why = "non-const iterators / data()"; }
+                bool threw = false; try { (void)nb.at(m.size() + (op.a % 3)); } catch (const std::out_of_range &) { threw = true; }
+                if (!threw) { ok = false; why = "non-const at(size()+k) did not throw std::out_of_range"; }
+                break;
+            }
             case 0:
                 if (b.size() != m.size() || b.empty() != m.empty()) { ok = false; why = "size()/empty()"; }
                 if (b.c_str() != b.data()) { ok = false; why = "c_str() != data()"; }
